@@ -11,9 +11,11 @@ import PegVerif.Model.Analysis
   and the soundness argument is an induction on the bound `k`.
 
   `casF` treats `.inl n _` like `.name n` (it looks at the body of rule `n`, `Eval` evaluates the
-  stored copy) and `.ualt` like `.alt` (`Eval` switches on the next symbol), so the theorem is
-  stated for grammars whose rule bodies are `plain`: no `inl` and no `ualt` node.  Those nodes are
-  created by the later `-inline` / `-switch` passes only.
+  stored copy), so the theorem is stated for grammars whose rule bodies contain no `inl` node
+  (`plainS`); `inl` nodes are created by the later `-inline` pass only.  A `-switch` node `.ualt` is
+  answered `false` outright (and `casF` never looks below it), so it may occur anywhere.  `plain`
+  (no `inl` and no `ualt`) is the stronger condition used by the properties about the default
+  generator; it implies `plainS`.
 -/
 namespace PegVerif
 
@@ -55,9 +57,80 @@ theorem Grammar.plain_of_all {G : Grammar}
     subst hb
     exact (List.all_eq_true.mp h) r (List.mem_of_find?_eq_some hf)
 
+/-! ### The weaker side condition: no `inl` (a `ualt` may occur, with anything below it) -/
+
+mutual
+  /-- No `inl` node, except possibly below a `ualt` (where `casF` never looks). -/
+  def Expr.plainS : Expr → Bool
+    | .inl _ _ => false
+    | .ualt _ _ => true
+    | .seq es => plainSL es
+    | .alt es => plainSL es
+    | .peekFor e => e.plainS
+    | .peekNot e => e.plainS
+    | .query e => e.plainS
+    | .star e => e.plainS
+    | .plus e => e.plainS
+    | .push e _ => e.plainS
+    | .ipush e _ => e.plainS
+    | _ => true
+  def plainSL : List Expr → Bool
+    | [] => true
+    | e :: es => e.plainS && plainSL es
+end
+
+mutual
+  theorem Expr.plain_plainS : ∀ (e : Expr), e.plain = true → e.plainS = true
+    | .dot, _ => rfl
+    | .chr _, _ => rfl
+    | .rng _ _, _ => rfl
+    | .str _, _ => rfl
+    | .name _, _ => rfl
+    | .pred _, _ => rfl
+    | .stmt _, _ => rfl
+    | .act _, _ => rfl
+    | .nil, _ => rfl
+    | .ualt _ _, _ => rfl
+    | .inl _ _, h => by simp [Expr.plain] at h
+    | .seq es, h => by simp only [Expr.plain] at h; simp only [Expr.plainS]; exact plainL_plainSL es h
+    | .alt es, h => by simp only [Expr.plain] at h; simp only [Expr.plainS]; exact plainL_plainSL es h
+    | .peekFor e, h => by simp only [Expr.plain] at h; simp only [Expr.plainS]; exact Expr.plain_plainS e h
+    | .peekNot e, h => by simp only [Expr.plain] at h; simp only [Expr.plainS]; exact Expr.plain_plainS e h
+    | .query e, h => by simp only [Expr.plain] at h; simp only [Expr.plainS]; exact Expr.plain_plainS e h
+    | .star e, h => by simp only [Expr.plain] at h; simp only [Expr.plainS]; exact Expr.plain_plainS e h
+    | .plus e, h => by simp only [Expr.plain] at h; simp only [Expr.plainS]; exact Expr.plain_plainS e h
+    | .push e _, h => by simp only [Expr.plain] at h; simp only [Expr.plainS]; exact Expr.plain_plainS e h
+    | .ipush e _, h => by simp only [Expr.plain] at h; simp only [Expr.plainS]; exact Expr.plain_plainS e h
+  theorem plainL_plainSL : ∀ (es : List Expr), plainL es = true → plainSL es = true
+    | [], _ => rfl
+    | e :: es, h => by
+      simp only [plainL, Bool.and_eq_true] at h
+      simp only [plainSL, Bool.and_eq_true]
+      exact ⟨Expr.plain_plainS e h.1, plainL_plainSL es h.2⟩
+end
+
+/-- Every rule body that `t.Rules[n]` can return is `plainS`. -/
+def Grammar.plainS (G : Grammar) : Prop := ∀ n b, G.body n = some b → b.plainS = true
+
+theorem Grammar.plain.plainS {G : Grammar} (h : G.plain) : G.plainS :=
+  fun n b hb => Expr.plain_plainS b (h n b hb)
+
+/-- Decidable sufficient condition for `Grammar.plainS`. -/
+theorem Grammar.plainS_of_all {G : Grammar}
+    (h : G.rules.all (fun r => r.body.plainS) = true) : G.plainS := by
+  intro n b hb
+  unfold Grammar.body Grammar.find at hb
+  cases hf : G.rules.find? (fun r => r.name == n) with
+  | none => rw [hf] at hb; simp at hb
+  | some r =>
+    rw [hf] at hb
+    simp only [Option.map_some, Option.some.injEq] at hb
+    subst hb
+    exact (List.all_eq_true.mp h) r (List.mem_of_find?_eq_some hf)
+
 /-! ### Height-bounded failure -/
 
-/-- Expressions for which `casF` answers `false` outright (given `plain`). -/
+/-- Expressions for which `casF` answers `false` outright (given `plainS`). -/
 def Expr.leafFail : Expr → Bool
   | .dot => true
   | .chr _ => true
@@ -161,15 +234,15 @@ theorem plainL_mem {es : List Expr} (h : plainL es = true) : ∀ e ∈ es, e.pla
     | head => exact h.1
     | tail _ he' => exact ih h.2 e he'
 
-theorem casF_leaf {G : Grammar} {fuel vis e} (hl : e.leafFail = true) (hp : e.plain = true) :
+theorem casF_leaf {G : Grammar} {fuel vis e} (hl : e.leafFail = true) (hp : e.plainS = true) :
     casF G fuel vis e = false := by
   cases fuel with
   | zero => rfl
-  | succ f => cases e <;> first | rfl | (simp [Expr.leafFail] at hl; done) | (simp [Expr.plain] at hp; done)
+  | succ f => cases e <;> first | rfl | (simp [Expr.leafFail] at hl; done) | (simp [Expr.plainS] at hp; done)
 
 /-! ### Soundness for every height bound -/
 
-theorem casF_sound_aux {G : Grammar} (hG : G.plain) : ∀ k fuel vis e, e.plain = true →
+theorem casF_sound_aux {G : Grammar} (hG : G.plainS) : ∀ k fuel vis e, e.plainS = true →
     casF G fuel vis e = true → (∀ m ∈ vis, ∀ p, ¬ FailN G k (.name m) p) →
     ∀ p, ¬ FailN G k e p := by
   intro k
@@ -201,48 +274,49 @@ theorem casF_sound_aux {G : Grammar} (hG : G.plain) : ∀ k fuel vis e, e.plain 
           | tail _ hm' => exact hvis' m hm' p' hF''
       | @seq_hd _ e es _ hF' =>
         simp only [casF, List.all_cons, Bool.and_eq_true] at hc
-        simp only [Expr.plain, plainL, Bool.and_eq_true] at hp
+        simp only [Expr.plainS, plainSL, Bool.and_eq_true] at hp
         exact ih f vis e hp.1 hc.1 hvis' p hF'
       | @seq_tl _ e es _ p1 hF' =>
         simp only [casF, List.all_cons, Bool.and_eq_true] at hc
-        simp only [Expr.plain, plainL, Bool.and_eq_true] at hp
+        simp only [Expr.plainS, plainSL, Bool.and_eq_true] at hp
         have hc' : casF G (f + 1) vis (.seq es) = true := by simp only [casF]; exact hc.2
-        exact ih (f + 1) vis (.seq es) (by simp only [Expr.plain]; exact hp.2) hc' hvis' p1 hF'
+        exact ih (f + 1) vis (.seq es) (by simp only [Expr.plainS]; exact hp.2) hc' hvis' p1 hF'
       | @alt_last _ e _ hF' =>
         simp only [casF, List.any_cons, List.any_nil, Bool.or_false] at hc
-        simp only [Expr.plain, plainL, Bool.and_eq_true] at hp
+        simp only [Expr.plainS, plainSL, Bool.and_eq_true] at hp
         exact ih f vis e hp.1 hc hvis' p hF'
       | @alt_next _ e e' es _ hF1 hF2 =>
         simp only [casF] at hc
         rw [List.any_cons, Bool.or_eq_true] at hc
-        simp only [Expr.plain] at hp
-        rw [plainL, Bool.and_eq_true] at hp
+        simp only [Expr.plainS] at hp
+        rw [plainSL, Bool.and_eq_true] at hp
         cases hc with
         | inl h1 => exact ih f vis e hp.1 h1 hvis' p hF1
         | inr h2 =>
           have hc' : casF G (f + 1) vis (.alt (e' :: es)) = true := by simp only [casF]; exact h2
-          exact ih (f + 1) vis (.alt (e' :: es)) (by simp only [Expr.plain]; exact hp.2) hc' hvis'
+          exact ih (f + 1) vis (.alt (e' :: es)) (by simp only [Expr.plainS]; exact hp.2) hc' hvis'
             p hF2
       | @push _ e r _ hF' =>
         simp only [casF] at hc
-        simp only [Expr.plain] at hp
+        simp only [Expr.plainS] at hp
         exact ih f vis e hp hc hvis' p hF'
       | @ipush _ e r _ hF' =>
         simp only [casF] at hc
-        simp only [Expr.plain] at hp
+        simp only [Expr.plainS] at hp
         exact ih f vis e hp hc hvis' p hF'
 
 /-- Soundness of `casF` for every fuel and every expression, from an empty visited set. -/
-theorem casF_sound {G : Grammar} {ρ : String → Nat → Bool} {inp : List Sym} (hG : G.plain)
-    {fuel e} (hp : e.plain = true) (hc : casF G fuel [] e = true) :
+theorem casF_sound {G : Grammar} {ρ : String → Nat → Bool} {inp : List Sym} (hG : G.plainS)
+    {fuel e} (hp : e.plainS = true) (hc : casF G fuel [] e = true) :
     ∀ p evs, ¬ Eval G ρ inp e p .fail evs := by
   intro p evs h
   obtain ⟨k, hk⟩ := h.failN rfl
   exact casF_sound_aux hG k fuel [] e hp hc (fun m hm => by cases hm) p hk
 
-/-- If `CheckAlwaysSucceeds` answers `true` for rule `n`, a reference to `n` never fails. -/
-theorem alwaysSucceeds_sound {G : Grammar} {ρ : String → Nat → Bool} {inp : List Sym} {n : String}
-    (hG : G.plain) (h : alwaysSucceeds G n = true) :
+/-- If `CheckAlwaysSucceeds` answers `true` for rule `n`, a reference to `n` never fails — also in
+    a grammar with `-switch` nodes. -/
+theorem alwaysSucceeds_soundS {G : Grammar} {ρ : String → Nat → Bool} {inp : List Sym} {n : String}
+    (hG : G.plainS) (h : alwaysSucceeds G n = true) :
     ∀ p evs, ¬ Eval G ρ inp (.name n) p .fail evs := by
   intro p evs hE
   unfold alwaysSucceeds at h
@@ -250,6 +324,12 @@ theorem alwaysSucceeds_sound {G : Grammar} {ρ : String → Nat → Bool} {inp :
   | name hb hE' =>
     rw [hb] at h
     exact casF_sound hG (hG n _ hb) h p evs hE'
+
+/-- If `CheckAlwaysSucceeds` answers `true` for rule `n`, a reference to `n` never fails. -/
+theorem alwaysSucceeds_sound {G : Grammar} {ρ : String → Nat → Bool} {inp : List Sym} {n : String}
+    (hG : G.plain) (h : alwaysSucceeds G n = true) :
+    ∀ p evs, ¬ Eval G ρ inp (.name n) p .fail evs :=
+  alwaysSucceeds_soundS hG.plainS h
 
 /-! ### Non-vacuity: `A <- 'x' / A?`, `B <- A 'y'` -/
 
@@ -272,3 +352,4 @@ example (ρ : String → Nat → Bool) (inp : List Sym) (p : Nat) (evs : List To
 end PegVerif
 
 #print axioms PegVerif.alwaysSucceeds_sound
+#print axioms PegVerif.alwaysSucceeds_soundS
